@@ -555,6 +555,7 @@ int main(int argc, char** argv) {
     fs::create_directories(scratch);
     fs::current_path(scratch);
     // the repository logs to std::cerr / std::clog on every frame; keep the sanitizers' stderr readable
+    std::ios::sync_with_stdio(false);   // before the redirection: the first call replaces the stream buffers
     std::ofstream devnull("/dev/null");
     auto* old_cerr = std::cerr.rdbuf(devnull.rdbuf());
     auto* old_clog = std::clog.rdbuf(devnull.rdbuf());
